@@ -36,6 +36,39 @@ CHECKS = {
              'Writer.tla promises for the calls (id, level, line, options, content with missing final newline '
              'appended, metadata as JSON value); a sample also runs Reader.tla over Writer.tla\'s bytes.',
         ref='6 C01'),
+    'C03': dict(
+        technique='TLA+ reference reader (Reader.tla ReadFile; MC_Reader) + TLC trace validation of DiffXReader '
+                  'on spec-derived foreign files and single-defect mutations (Trace_Reader exact)',
+        text='MC_Reader: the stepwise Reader spec is total, progresses, equals the functional ReadFile, keeps '
+             'line numbers increasing and error ranges inside the input over all token-level files. Files from '
+             'an independent generator (every legal structure to the bound from TLC, foreign styles, 19 codec '
+             'spellings, each catalogue defect, the spec\'s example diffs) are read by DiffXReader; TLC decides '
+             'records, acceptance and the allowed error-line range with ReadFile.',
+        ref='6 C03'),
+    'C10': dict(
+        technique='TLA+ spec (Scope.tla order machine complete; MC_Reader OrderLang) + TLC-enumerated id '
+                  'sequences replayed into DiffXReader + TLC trace validation (Trace_Reader order)',
+        text='Order machine explored to fix-point; TLC enumerates every legal path up to the bound extended by '
+             'every one of 17 ids (9 legal, 8 well-formed illegal); each is rendered with valid headers and read '
+             'by DiffXReader; TLC requires the accepted id sequence and the rejection point to equal ReadFile\'s.',
+        ref='6 C10'),
+    'C11': dict(
+        technique='TLA+ header grammar (Header.tla recogniser = DFA, MC_Header) + TLC-generated accepted set '
+                  'Acc(N) vs exhaustive enumeration through DiffXReader + TLC trace validation (header mode)',
+        text='Recogniser and DFA agree on all strings <= N over 15 character classes (TLC). TLC emits the '
+             'complete accepted set Acc(N); ALL strings <= N over the alphabet are given to the real reader as '
+             'header lines; membership in Acc(N) decides accept/reject; accepted strings, disagreements, a sample '
+             'of rejections and a catalogue of malformed id prefixes are re-judged by TLC (verbatim options, '
+             'integer conversion, never another exception).',
+        ref='6 C11'),
+    'C12': dict(
+        technique='TLA+ metamorphic theorem on Reader.tla (MC_Reader Unknown) + TLC validation of the same '
+                  'relation between two DiffXReader executions (Trace_Reader unknown mode)',
+        text='MC_Reader checks ReadFile(insert unknown option) = ReadFile + that option for every header and '
+             'position of every token-level file. For generated well-formed files, 1-3 unknown options from the '
+             'grammar\'s extremes are inserted at random positions; TLC requires the records of the modified '
+             'file to equal the records of the original with Opt(k,v) (integers converted) added.',
+        ref='6 C12'),
 }
 
 PENDING = {}
